@@ -8,6 +8,7 @@ import (
 
 	ipfslog "berty.tech/go-ipfs-log"
 	"berty.tech/go-orbit-db/iface"
+	"berty.tech/go-orbit-db/stores/basestore"
 
 	"verifharness/fw"
 	"verifharness/sim"
@@ -33,7 +34,7 @@ func init() {
 }
 
 func c01Cases(tier string, seed int64) []fw.Case {
-	n := 36
+	n := 60
 	if tier == "thorough" {
 		n = 400
 	}
@@ -210,6 +211,31 @@ func c01Routes(r *Runner, rng *rand.Rand) []string {
 			r.logf("restart late: %v", err)
 		}
 		r.settle()
+	}
+	// route: snapshot — save on a replica, reload it into a fresh instance with LoadFromSnapshot
+	if late != nil && late.Running() && r.failed == nil {
+		st := r.store(late.Idx)
+		sctx, scancel := context.WithTimeout(bg, 30*time.Second)
+		_, serr := basestore.SaveSnapshot(sctx, st)
+		scancel()
+		if serr == nil {
+			late.Stop()
+			r.settle()
+			if err := late.Start(); err == nil {
+				if err := r.E.OpenOn(r.DB, late); err == nil {
+					lctx, lcancel := context.WithTimeout(bg, 30*time.Second)
+					if err := r.store(late.Idx).LoadFromSnapshot(lctx); err == nil {
+						routes = append(routes, "snapshot")
+					} else {
+						r.logf("LoadFromSnapshot: %v (C13's business)", err)
+						_ = r.store(late.Idx).Load(bg, -1)
+					}
+					lcancel()
+				}
+			}
+			delete(r.prevSnap, late.Idx)
+			r.settle()
+		}
 	}
 	r.Checkpoint("routes")
 	// report replicas that never received everything (C02's business)
